@@ -736,7 +736,7 @@ fn run_relabel(plan: &Plan, lib: &dyn Lib, rec: &mut Rec) {
                     }
                 }
             }
-            if from != 1 && to != 1 && shares.len() == 3 {
+            if from != 1 && shares.len() == 3 {
                 if let (Some(part), Some(pks)) = (
                     rec.call(lib, g, Op::ShareSign, &[&shares[0], &[from], &msg]).first().map(|v| v.to_vec()),
                     rec.call(lib, g, Op::SharePk, &[&shares[0]]).first().map(|v| v.to_vec()),
